@@ -1,13 +1,79 @@
 import DadiVerif.Lemmas.Projection
-import DadiVerif.Lemmas.LowPassND
-/-! C08, whole arrays, part 1 (no `Spec` yet): sums over index boxes (re-using the Fubini machinery `sumBox`,
-    `sumBox_swap`, … of Lemmas/LowPassND.lean), the product kernel Π_k hyp(m_k, n_k, i_k, j_k) of a d-dimensional
+import Mathlib.Algebra.Order.BigOperators.Group.Finset
+import Mathlib.Algebra.Order.BigOperators.Ring.Finset
+/-! C08, whole arrays, part 1 (no `Spec` yet): sums over index boxes (the Fubini machinery `sumBox`, `sumBox_swap`, …
+    is the one of Lemmas/LowPassND.lean, restated here word for word so that the C08 build does not depend on
+    Generated/LowPass.lean, which is regenerated from LowPass.py on every run), the product kernel Π_k hyp(m_k, n_k, i_k, j_k) of a d-dimensional
     projection — row sums, composition, mirror symmetry, support, corners — and the function-level form of the
     per-axis loop of `Spectrum.project` with its closed form. -/
 namespace DadiVerif
 namespace PBox
 open Finset
-open LowPass (sumBox inBox sumBox_congr sumBox_add sumBox_mul_left sumBox_zero sumBox_sum sumBox_swap sumBox_le)
+
+/-! ### sums over a box (as in Lemmas/LowPassND.lean) -/
+
+/-- Σ over all multi-indices of a box -/
+def sumBox : List ℕ → (List ℕ → ℚ) → ℚ
+  | [], f => f []
+  | n :: ns, f => ∑ i ∈ range n, sumBox ns fun r => f (i :: r)
+
+/-- membership in a box -/
+def inBox : List ℕ → List ℕ → Prop
+  | [], [] => True
+  | n :: ns, i :: is => i < n ∧ inBox ns is
+  | _, _ => False
+
+theorem sumBox_congr (ns : List ℕ) (f g : List ℕ → ℚ) (h : ∀ i, inBox ns i → f i = g i) :
+    sumBox ns f = sumBox ns g := by
+  induction ns generalizing f g with
+  | nil => exact h [] trivial
+  | cons n ns ih =>
+    simp only [sumBox]
+    refine Finset.sum_congr rfl (fun i hi => ih _ _ (fun r hr => h (i :: r) ⟨by simpa using hi, hr⟩))
+
+theorem sumBox_le (ns : List ℕ) (f g : List ℕ → ℚ) (h : ∀ i, inBox ns i → f i ≤ g i) :
+    sumBox ns f ≤ sumBox ns g := by
+  induction ns generalizing f g with
+  | nil => exact h [] trivial
+  | cons n ns ih =>
+    simp only [sumBox]
+    refine Finset.sum_le_sum (fun i hi => ih _ _ (fun r hr => h (i :: r) ⟨by simpa using hi, hr⟩))
+
+theorem sumBox_add (ns : List ℕ) (f g : List ℕ → ℚ) :
+    sumBox ns (fun i => f i + g i) = sumBox ns f + sumBox ns g := by
+  induction ns generalizing f g with
+  | nil => rfl
+  | cons n ns ih => simp only [sumBox, ih, Finset.sum_add_distrib]
+
+theorem sumBox_mul_left (ns : List ℕ) (c : ℚ) (f : List ℕ → ℚ) :
+    sumBox ns (fun i => c * f i) = c * sumBox ns f := by
+  induction ns generalizing f with
+  | nil => rfl
+  | cons n ns ih => simp only [sumBox, ih, Finset.mul_sum]
+
+theorem sumBox_zero (ns : List ℕ) : sumBox ns (fun _ => 0) = 0 := by
+  induction ns with
+  | nil => rfl
+  | cons n ns ih => simp only [sumBox, ih, Finset.sum_const_zero]
+
+theorem sumBox_sum (ns : List ℕ) (n : ℕ) (g : ℕ → List ℕ → ℚ) :
+    sumBox ns (fun j => ∑ i ∈ range n, g i j) = ∑ i ∈ range n, sumBox ns (g i) := by
+  induction ns generalizing g with
+  | nil => rfl
+  | cons m ns ih =>
+    simp only [sumBox, ih]
+    rw [Finset.sum_comm]
+
+/-- Fubini for two boxes -/
+theorem sumBox_swap (ms ns : List ℕ) (F : List ℕ → List ℕ → ℚ) :
+    sumBox ms (fun j => sumBox ns (fun i => F i j)) = sumBox ns (fun i => sumBox ms (fun j => F i j)) := by
+  induction ns generalizing F with
+  | nil => rfl
+  | cons n ns ih =>
+    simp only [sumBox]
+    rw [sumBox_sum]
+    refine Finset.sum_congr rfl (fun i _ => ?_)
+    exact ih (fun r j => F (i :: r) j)
 
 /-! ### boxes -/
 
